@@ -219,3 +219,42 @@ pub fn hex_full(b: &[u8]) -> String {
 pub fn unhex(s: &str) -> Vec<u8> {
     (0..s.len() / 2).map(|i| u8::from_str_radix(&s[2 * i..2 * i + 2], 16).unwrap()).collect()
 }
+
+
+static LAST_PANIC: Mutex<Option<(String, u32, String)>> = Mutex::new(None);
+
+/// Runs an engine body. A panic raised inside the code under test (its location is a file of the
+/// repository's crates) that no per-call guard of the engine absorbed is a verdict: the library
+/// panicked on an input of the enumeration. A panic anywhere else is a machinery failure (exit 101).
+pub fn run_guarded(property: &str, level: &str, body: impl FnOnce(&Report) -> Value) -> i32 {
+    std::panic::set_hook(Box::new(|info| {
+        let (file, line) = info.location().map(|l| (l.file().to_string(), l.line())).unwrap_or_default();
+        let msg = info.payload().downcast_ref::<&str>().map(|s| s.to_string()).or_else(|| info.payload().downcast_ref::<String>().cloned()).unwrap_or_default();
+        let mut g = LAST_PANIC.lock().unwrap_or_else(|e| e.into_inner());
+        if g.is_none() {
+            eprintln!("panic at {}:{}: {}", file, line, msg);
+        }
+        // the last panic is the one that can have escaped the engine's own per-call guards
+        *g = Some((file, line, msg));
+    }));
+    let rep = Report::new(property, level);
+    match std::panic::catch_unwind(std::panic::AssertUnwindSafe(|| body(&rep))) {
+        Ok(cov) => rep.finish(cov),
+        Err(_) => {
+            let first = LAST_PANIC.lock().unwrap_or_else(|e| e.into_inner()).clone();
+            let (file, line, msg) = first.unwrap_or_default();
+            let in_library = (file.contains("/crates/erltf") || file.contains("/crates/edp_") || file.starts_with("crates/")) && !file.contains("/harness/");
+            if !in_library {
+                eprintln!("MACHINERY-ERROR: the harness itself panicked at {}:{} ({})", file, line, msg);
+                return 101;
+            }
+            rep.violation("library code panicked during the enumeration", json!({"location": format!("{}:{}", file, line), "message": msg}));
+            rep.finish(json!({
+                "evaluations": rep.get("evaluations").max(1), "distinct_nontrivial": rep.get("distinct_nontrivial").max(0),
+                "states": 1, "transitions": 1, "traces_validated_against_impl": 0,
+                "samples": [{"panic_location": format!("{}:{}", file, line)}],
+                "rule": "run cut short by a panic inside the code under test", "exhaustive": false,
+            }))
+        }
+    }
+}
